@@ -160,6 +160,19 @@ func upExec(c *hlib.RunCtx, t *simrt.Tape) (*hlib.Violation, int) {
 			w := refcal.Date(day - 3 - t.Draw(20))
 			os.WriteFile(filepath.Join(m.loc, w+".json"), []byte([]string{"", "{", `{"Week":"` + w + `","X":0.25,"Config":"v0.1.0"}`, "garbage"}[t.Draw(4)]), 0666)
 		}
+		// files whose names only nearly match the data-file patterns
+		if t.Bool(1, 3) {
+			strays := []string{"x.json", ".json", "local..json", "local.x.json", "2024.json", "0000000000.json", "xxxx-xx-xx.json", "2024-13-45.json",
+				"local.2024-13-45.json", ".v1.count", "x.v1.count", "a-b.v1.count", "a@b@c.v1.count", "weekends", "upload.token", "json"}
+			w := refcal.Date(day - 3 - t.Draw(20))
+			bodies := []string{"", "{}", `{"Week":"` + w + `","X":0.25,"Config":"v0.1.0"}`, "garbage", "null", "[]"}
+			for _, n := range strays {
+				if t.Bool(1, 4) {
+					os.WriteFile(filepath.Join(m.loc, n), []byte(bodies[t.Draw(len(bodies))]), 0666)
+					s.Probe("stray-file")
+				}
+			}
+		}
 		if dirKind == 3 {
 			os.WriteFile(m.upl, []byte("not a directory"), 0666)
 		}
